@@ -1024,6 +1024,13 @@ func postprocessACLParts(c *cmd, parts []string, wildcard bool) {
 			}
 		}
 	}
+	skipNumber := func() {
+		if len(parts) > 0 {
+			if _, err := strconv.ParseUint(parts[0], 10, 8); err == nil {
+				parts = parts[1:]
+			}
+		}
+	}
 	convICMP := func() {
 		if len(parts) > 0 {
 			switch proto {
@@ -1031,16 +1038,12 @@ func postprocessACLParts(c *cmd, parts []string, wildcard bool) {
 				if replace, found := icmpTypeCodes[parts[0]]; found {
 					parts[0] = replace
 					parts = parts[1:]
+				} else {
+					// Type without name is shown as number.
+					skipNumber()
 				}
 			case "icmp6":
 				convNamed(icmp6Types)
-			}
-		}
-	}
-	skipNumber := func() {
-		if len(parts) > 0 {
-			if _, err := strconv.ParseUint(parts[0], 10, 8); err == nil {
-				parts = parts[1:]
 			}
 		}
 	}
